@@ -3197,7 +3197,21 @@ func (r *Resolver) verifyDNSSEC(ctx context.Context, signer, signed string, resp
 		return false, fmt.Errorf("DS RR set empty")
 	}
 
-	unsupportedOnly, err := dnssec.VerifyDSWithWork(keys, parentdsRR, r.dnssecWork(ctx))
+	// RFC 4035 §5.2: when resp *is* the signer's DNSKEY RRset, only a key
+	// the parent's DS names may vouch for it. Every other key in the RRset
+	// is attacker-influenceable data until that signature has verified, so
+	// letting "any key in the set" sign the set would let an on-path
+	// attacker append their own key next to the genuine KSK and sign
+	// everything with it. Data RRsets (msg came from the validated DNSKEY
+	// sub-query) are still checked against the whole, now-authenticated,
+	// RRset.
+	verifyKeys := keys
+	var unsupportedOnly bool
+	if msg == resp {
+		verifyKeys, unsupportedOnly, err = dnssec.MatchDSWithWork(keys, parentdsRR, r.dnssecWork(ctx))
+	} else {
+		unsupportedOnly, err = dnssec.VerifyDSWithWork(keys, parentdsRR, r.dnssecWork(ctx))
+	}
 	if err != nil {
 		zlog.Debug("DNSSEC DS verify failed", "signer", signer, "signed", signed, "error", err.Error(), "unsupported only", unsupportedOnly)
 		if unsupportedOnly {
@@ -3214,7 +3228,7 @@ func (r *Resolver) verifyDNSSEC(ctx context.Context, signer, signed string, resp
 		return false, nil
 	}
 
-	if ok, err = dnssec.VerifyRRSIGWithWork(signer, keys, resp, r.dnssecWork(ctx)); err != nil {
+	if ok, err = dnssec.VerifyRRSIGWithWork(signer, verifyKeys, resp, r.dnssecWork(ctx)); err != nil {
 		return
 	}
 
